@@ -138,6 +138,12 @@ func presets(rng *rand.Rand) []preset {
 		{"tiny", cfgToken(customSpec(tiny))},
 		{"odd", cfgToken(customSpec(odd))},
 		{"random", cfgToken(customSpec(rnd))},
+		// lengths whose chunk count is not a power of two and whose byte length is not a multiple of 32
+		// (bitvectors of 2.5 / 2.7 / 0.6 chunks, vectors of 5.25 / 5 / 6 chunks)
+		{"chunks", cfgToken(customSpec(mergeMaps(odd, map[string]uint64{
+			"SYNC_COMMITTEE_SIZE": 640, "MAX_COMMITTEES_PER_SLOT": 700, "EPOCHS_PER_SLASHINGS_VECTOR": 21,
+			"SLOTS_PER_HISTORICAL_ROOT": 6, "EPOCHS_PER_HISTORICAL_VECTOR": 5, "MAX_VALIDATORS_PER_COMMITTEE": 20,
+		})))},
 		// the two bellatrix preset values zrnt hard-codes (package constants 32 and 256): only the types that
 		// hold them directly are run under this preset (see xdataTypes), the disagreement is a known finding
 		{"xdata", cfgToken(customSpec(map[string]uint64{"MAX_EXTRA_DATA_BYTES": 48, "BYTES_PER_LOGS_BLOOM": 128}))},
@@ -146,3 +152,14 @@ func presets(rng *rand.Rand) []preset {
 
 // xdataTypes: the types run under the `xdata` preset
 var xdataTypes = map[string]bool{"common.ExtraData": true, "common.LogsBloom": true, "bellatrix.ExecutionPayloadHeader": true}
+
+func mergeMaps(a, b map[string]uint64) map[string]uint64 {
+	out := map[string]uint64{}
+	for k, v := range a {
+		out[k] = v
+	}
+	for k, v := range b {
+		out[k] = v
+	}
+	return out
+}
